@@ -31,6 +31,8 @@ struct Shared {
     write_fault_after: Option<usize>,
     /// the n-th write call from now (0 = next) fails ONCE with this kind of error (e.g. Interrupted)
     write_hiccup: Option<(usize, io::ErrorKind)>,
+    /// the next write call sleeps this long first (the calling thread - the I/O thread - is stalled)
+    park_next_write_ms: u64,
     reads: usize,
     writes: usize,
     dropped: bool,
@@ -63,6 +65,7 @@ pub fn pair() -> (MockStream, Peer) {
             write_fault: false,
             write_fault_after: None,
             write_hiccup: None,
+            park_next_write_ms: 0,
             reads: 0,
             writes: 0,
             dropped: false,
@@ -143,6 +146,13 @@ impl io::Read for MockStream {
 impl io::Write for MockStream {
     fn write(&mut self, buf: &[u8]) -> io::Result<usize> {
         let (m, cv) = &*self.shared;
+        let park = {
+            let mut sh = m.lock().unwrap();
+            std::mem::replace(&mut sh.park_next_write_ms, 0)
+        };
+        if park > 0 {
+            std::thread::sleep(Duration::from_millis(park));
+        }
         let mut sh = m.lock().unwrap();
         sh.writes += 1;
         if sh.write_fault {
@@ -296,6 +306,11 @@ impl Peer {
     /// The k-th write call from now that finds the transport willing fails once with `kind`.
     pub fn hiccup_write_after(&self, k: usize, kind: io::ErrorKind) {
         self.shared.0.lock().unwrap().write_hiccup = Some((k, kind));
+    }
+
+    /// The next write call stalls its thread for `ms` before it proceeds.
+    pub fn park_next_write(&self, ms: u64) {
+        self.shared.0.lock().unwrap().park_next_write_ms = ms;
     }
 
     pub fn written(&self) -> Vec<u8> {
